@@ -30,7 +30,7 @@ func sideOfName(name string) string {
 
 func checkC14(r *Run) propMeta {
 	meta := propMeta{Level: "other",
-		Explanation: "Decides a thin structural necessary condition of container agreement: (R1) direction exhaustiveness — every branch on a graph.Direction value in package container distinguishes outbound, inbound and both: a switch has both single-direction cases plus an explicit Both case or a default, and the Both/default branch touches both adjacency sides (or delegates to a direction-aware helper that receives the queried node); a two-way `if d == Outbound … else …` in a function that has callers is reported; (R2) role consistency — the Outbound branch reads only out-side storage (outbound / outOffsets,outAdj / startIndex, and the edge's End as the far endpoint), the Inbound branch the mirror set; builders store `end` under `start` on the out side and `start` under `end` on the in side; closures that fill one side's arrays do not touch the other side's. (R4) query-side read-only — no function reachable from a function that takes a graph.Direction (or from NumNodes/EachNode/EachAdjacentNode) calls a mutating bitmap method (Or/And/AndNot/Xor/Add/Remove/CheckedAdd/Clear) on a bitmap that is a struct field or an element of a map/slice field, directly or through a package function that returns one, without Clone(): such a call makes later answers depend on the query history. NOT decided: BFS distances, prefix sums, ID normalisation, segment serialisation, reachability — value-level.",
+		Explanation: "Decides a thin structural necessary condition of container agreement: (R1) direction exhaustiveness — every branch on a graph.Direction value in package container distinguishes outbound, inbound and both: a switch has both single-direction cases plus an explicit Both case or a default, and the Both/default branch touches both adjacency sides (or delegates to a direction-aware helper that receives the queried node); a two-way `if d == Outbound … else …` in a function that has callers is reported; (R2) role consistency — the Outbound branch reads only out-side storage (outbound / outOffsets,outAdj / startIndex, and the edge's End as the far endpoint), the Inbound branch the mirror set; builders store `end` under `start` on the out side and `start` under `end` on the in side; closures that fill one side's arrays do not touch the other side's. (R4) query-side read-only — no function reachable from a function that takes a graph.Direction (or from NumNodes/EachNode/EachAdjacentNode) calls a mutating bitmap method (Or/And/AndNot/Xor/Add/Remove/CheckedAdd/Clear) on a bitmap that is a struct field or an element of a map/slice field, directly or through a package function that returns one, without Clone(): such a call makes later answers depend on the query history. The same origin analysis covers a stored bitmap passed to a helper that mutates its parameter, and slices: no append to, sort of, copy into or element write through a slice that aliases a container array (a CSR row is a range of one shared array). NOT decided: BFS distances, prefix sums, ID normalisation, segment serialisation, reachability — value-level.",
 		Assumptions: []string{"adjacency sides are recognised by the repository's naming (out*/outbound/startIndex vs in*/inbound/endIndex; Edge.End is the far endpoint of an outbound edge)"},
 		TrustedBase: []string{"go/types", "this analyser"}}
 	if err := r.Load("./container/...", "./algo/..."); err != nil {
@@ -199,6 +199,17 @@ func checkC14(r *Run) propMeta {
 	checkBuilderRoles(r, p)
 	// R4: query-side functions never mutate a stored adjacency bitmap
 	var roots []*types.Func
+	// the read interfaces: every method of DirectedGraph and Triplestore (views included), by name
+	readMethods := map[string]bool{}
+	for _, in := range []string{"DirectedGraph", "Triplestore"} {
+		if tn, ok := p.Types.Scope().Lookup(in).(*types.TypeName); ok {
+			if it, ok := tn.Type().Underlying().(*types.Interface); ok {
+				for i := 0; i < it.NumMethods(); i++ {
+					readMethods[it.Method(i).Name()] = true
+				}
+			}
+		}
+	}
 	for fn := range cg.Decl {
 		if cg.PkgOf[fn] != p {
 			continue
@@ -210,7 +221,7 @@ func checkC14(r *Run) propMeta {
 				isRoot = true
 			}
 		}
-		if sig.Recv() != nil && (fn.Name() == "NumNodes" || fn.Name() == "EachNode" || fn.Name() == "EachAdjacentNode") {
+		if sig.Recv() != nil && readMethods[fn.Name()] {
 			isRoot = true
 		}
 		if isRoot {
@@ -219,6 +230,11 @@ func checkC14(r *Run) propMeta {
 	}
 	r.Ob("C14-R4-query-roots", "container", token.NoPos, len(roots) >= 20, "%d query-side entry points (functions taking a graph.Direction, and the DirectedGraph read methods)", len(roots))
 	checkStoredSetsReadOnly(r, "C14-R4-stored-set-readonly", p, cg, roots, true, nil)
+	// … nor hands one to a helper that mutates its parameter, nor appends to / sorts / writes through a slice that
+	// aliases the container's arrays
+	bitmaps := &storedSetAnalysis{r: r, p: p, cg: cg, retStore: map[*types.Func]string{}, busy: map[*types.Func]bool{}, plainFields: true}
+	checkStorageAliasing(r, "C14-R4-stored-set-readonly", newAliasAnalysis(r, cg, p), bitmaps, roots)
+	checkInPlaceReuse(r, "C14-R4-stored-set-readonly", p)
 	r.Floor("C14-R4-stored-set-readonly", 8)
 	r.Floor("C14-R1-direction-exhaustive", 6)
 	r.Floor("C14-R2-role-consistency", 10)
